@@ -38,7 +38,31 @@ func outDir(kind string) string {
 	}
 	return filepath.Join(verifDir, kind)
 }
-const repoDir = "/repo"
+// repoDir is the tree under test: /repo. VSIM_REPO names another copy for
+// trial runs against deliberately broken trees (tools/seedrun.sh), so that
+// such trials do not occupy /repo; registered commands never set it.
+var repoDir = func() string {
+	if v := os.Getenv("VSIM_REPO"); v != "" {
+		return v
+	}
+	return "/repo"
+}()
+
+// modfileArgs points the harness module at repoDir when it is not /repo.
+func modfileArgs(scratch string) []string {
+	if repoDir == "/repo" {
+		return nil
+	}
+	gm, err := os.ReadFile(filepath.Join(verifDir, "go.mod"))
+	if err != nil {
+		die(2, "go.mod: %v", err)
+	}
+	mf := filepath.Join(scratch, "go.mod")
+	os.WriteFile(mf, []byte(strings.Replace(string(gm), "=> /repo", "=> "+repoDir, 1)), 0644)
+	gs, _ := os.ReadFile(filepath.Join(verifDir, "go.sum"))
+	os.WriteFile(filepath.Join(scratch, "go.sum"), gs, 0644)
+	return []string{"-modfile=" + mf}
+}
 
 var instrPkgs = []string{
 	"github.com/bmeg/grip/engine/...", "github.com/bmeg/grip/gdbi", "github.com/bmeg/grip/kvgraph",
@@ -122,17 +146,18 @@ func prepare(race bool) *build {
 	var wg sync.WaitGroup
 	var e1, e2 error
 	var o1, o2 string
+	mfa := modfileArgs(scratch)
 	wg.Add(1)
 	go func() {
 		defer wg.Done()
-		o1, e1 = run(verifDir, goEnv(), goBin(), "test", "-c", "-overlay", filepath.Join(ov, "overlay.json"), "-tags", "verif", "-o", b.bin, "./scen")
+		o1, e1 = run(verifDir, goEnv(), goBin(), append(append([]string{"test", "-c"}, mfa...), "-overlay", filepath.Join(ov, "overlay.json"), "-tags", "verif", "-o", b.bin, "./scen")...)
 	}()
 	if race {
 		b.raceBin = filepath.Join(scratch, "scen.race.test")
 		wg.Add(1)
 		go func() {
 			defer wg.Done()
-			o2, e2 = run(verifDir, goEnv(), goBin(), "test", "-c", "-race", "-overlay", filepath.Join(ov, "overlay.json"), "-tags", "verif", "-o", b.raceBin, "./scen")
+			o2, e2 = run(verifDir, goEnv(), goBin(), append(append([]string{"test", "-c", "-race"}, mfa...), "-overlay", filepath.Join(ov, "overlay.json"), "-tags", "verif", "-o", b.raceBin, "./scen")...)
 		}()
 	}
 	wg.Wait()
